@@ -28,6 +28,10 @@ func main() {
 	switch os.Args[1] {
 	case "check":
 		os.Exit(cmdCheck(os.Args[2:]))
+	case "selftest":
+		os.Exit(cmdSelftest(os.Args[2:]))
+	case "replay":
+		os.Exit(cmdReplay(os.Args[2:]))
 	case "list":
 		idx, err := loadIndex()
 		if err != nil {
@@ -298,12 +302,17 @@ func cmdCheck(args []string) int {
 			}
 		}
 	}
+	// translator validation on solver-produced models: native build vs interpreter
+	validated, vmsgs := validateNative(ld, results, *tier)
+	for _, s := range vmsgs {
+		inconc = append(inconc, s)
+	}
 	for _, l := range kfLines {
 		fmt.Println(l)
 	}
 	wall := time.Since(t0)
 	if !*noEvidence {
-		writeEvidence(prop, *tier, seed, results, pc, wall, nviol, inconc, ld)
+		writeEvidence(prop, *tier, seed, results, pc, wall, nviol, inconc, ld, validated)
 	}
 	for _, r := range results {
 		if r.ex != nil {
@@ -497,4 +506,65 @@ func runHarness(ld *Loader, cfg *HarnessCfg, nworkers int, mode string, trace bo
 	wg.Wait()
 	res.wall = time.Since(t0)
 	return res
+}
+
+// validateNative replays sampled path models of native-capable harnesses against the
+// real build and compares observations and assertion outcomes with the interpreter's.
+func validateNative(ld *Loader, results []*harnessResult, tier string) (int, []string) {
+	var entries []selfEntry
+	type exp struct {
+		obs []string
+		h   string
+	}
+	want := map[string]exp{}
+	tmp, err := os.MkdirTemp("", "gosym-samples-")
+	if err != nil {
+		return 0, nil
+	}
+	defer os.RemoveAll(tmp)
+	limit := 3
+	if tier == "thorough" {
+		limit = 10
+	}
+	for ri, r := range results {
+		if r.ex == nil || r.mode != "main" || !r.cfg.Native {
+			continue
+		}
+		for si, s := range r.ex.natSamples {
+			if si >= limit {
+				break
+			}
+			tag := fmt.Sprintf("h%ds%d", ri, si)
+			f := filepath.Join(tmp, tag+".json")
+			b, _ := json.Marshal(map[string]interface{}{"model": s.Model, "params": r.cfg.Params})
+			os.WriteFile(f, b, 0o644)
+			entries = append(entries, selfEntry{Pkg: r.cfg.Pkg, Entry: r.cfg.Entry, Replay: f, Tag: tag})
+			want[tag] = exp{s.Observes, r.cfg.Name}
+		}
+	}
+	if len(entries) == 0 {
+		return 0, nil
+	}
+	obs, fails, err := nativeRun(ld, entries, "")
+	if err != nil {
+		return 0, []string{"native translator validation could not run: " + err.Error()}
+	}
+	var msgs []string
+	ok := 0
+	for tag, w := range want {
+		good := len(fails[tag]) == 0 && len(obs[tag]) == len(w.obs)
+		if good {
+			for i := range w.obs {
+				if obs[tag][i] != w.obs[i] {
+					good = false
+				}
+			}
+		}
+		if good {
+			ok++
+		} else {
+			msgs = append(msgs, fmt.Sprintf("%s: TRANSLATOR-MISMATCH on a sampled path model: native observed %v failures %v, interpreter observed %v", w.h, obs[tag], fails[tag], w.obs))
+		}
+	}
+	return ok, msgs
 }
